@@ -240,11 +240,20 @@ func init() { mon.Register("{{.Name}}", verifRun) }
 
 var _ = os.Stdout
 
+// verifSharedOpts: option values built once and handed to many (concurrent) Parse calls, as a
+// program that keeps its options in a package-level variable does. All of them are neutral.
+var verifSharedOpts = []Option{Entrypoint(""), Recover(true), AllowInvalidUTF8(false), MaxExpressions(0), GlobalStore("shared", "x"),
+{{if not .Optimized}}	Memoize(false), Debug(false),
+{{end}}}
+
 func verifRun(c *mon.Case) *mon.Result {
 	res := &mon.Result{ID: c.ID}
 	tr := &mon.Trace{Stress: c.Stress, Max: c.MaxEvents}
 	var vp *parser
 	opts := []Option{GlobalStore("mon", tr)}
+	if c.SharedOpts {
+		opts = append(append([]Option{}, verifSharedOpts...), opts...)
+	}
 	if c.Entry != "" {
 		opts = append(opts, Entrypoint(c.Entry))
 	}
